@@ -9,6 +9,7 @@
 #include <string_theory/utf_conversion>
 #include <string_theory/iostream>
 #include <string_theory/stdio>
+#include <sstream>
 
 namespace B {
 
@@ -19,12 +20,16 @@ struct Pool {
     std::vector<ST::utf32_buffer> b32;
     std::vector<ST::wchar_buffer> bw;
     std::vector<ST::string> hex, b64, nums;
+    // prototype std streams the main thread has configured *and already used as sinks*: every thread's own streams take their formatting state
+    // from them with copyfmt() (how an application hands one house style to many streams)
+    std::ostringstream proto8; std::wostringstream protow;
 };
 struct Priv {                       // thread-private objects that persist over the thread's program
     ST::string acc;
     ST::string_stream ss;
     ST::char_buffer buf;
     std::vector<ST::string> vec;
+    std::ostringstream os8; std::wostringstream osw;      // the thread's own long-lived streams; their formatting state was copied from the prototypes
 };
 
 static inline void hs(simrt::Hash &h, const ST::string &s) { h.u64(s.size()); h.bytes(s.c_str(), s.size()); }
